@@ -90,7 +90,7 @@ CHECKS = {
             "All layouts of <= 2 column descriptors (incl. multi-column ones) x all action sequences of length 2 (quick) / 3 (thorough); the (width, hidden, style) vector of every column compared after each step; same for rows.",
             "Layouts are injected through the public workbook value, as an import would produce them.", "4 C29"),
     "C30": ("cases", "model_checking", "TLA+ Styles.tla (Assign, ReadBack, NoAliasing) with TLC; every assignment sequence replayed on set_cell_style / set_row_style / set_column_style and read back",
-            "All sequences of 2 (quick) / 3 (thorough) assignments over 4 targets x 18 styles; 7 reads (targets and untouched probes) compared after each step, and again after a binary reload.",
+            "All sequences of 2 (quick) / 3 (thorough) assignments over 4 targets x 21 styles; 7 reads (targets and untouched probes) compared after each step, and again after a binary reload.",
             "Style pool chosen so that each attribute is varied alone.", "4 C30"),
     "C07": ("recalc", "model_checking", "TLA+ Recalc.tla: the demanded values are a function of the contents alone; every final workbook of its behaviours is rebuilt in other input orders, with paused evaluation, with a reload, and evaluated twice",
             "9 rebuild variants per behaviour (3 orders x 3 modes) + second evaluation, all compared with what the editing history shows.",
@@ -102,7 +102,7 @@ CHECKS = {
             "All sequences of length <= 2 plus 12 000 sampled of length 3 (quick) / all of length 3 (thorough) x 7 APIs x 3 (thorough 30) language/locale pairs.",
             "Oracle is 'returns'; formulas with a range operator are not evaluated (whole-column arrays do not finish).", "4 C11"),
     "C25": ("cases", "fault_enumeration", "TLA+ XlsxFaults.tla (package = parts = elements + attributes; fault actions; Import outcome in {ok, err}) enumerated by TLC over the vocabulary of real packages; every fault plan applied to the bytes and imported",
-            "Every single fault (element drop/duplicate/empty, attribute drop/garble x 6, part truncate/drop, zip truncate, byte flip) over up to 12 positions per part of 7 packages (~11 000 plans quick); thorough adds 40 positions and fault pairs (~57 000 plans).",
+            "Every single fault (element drop/duplicate/empty, attribute drop / garble x 8 classes, index-like attributes moved up by 1..12, part truncate/drop, zip truncate, byte flip) over up to 12 positions per part of 9 packages (~21 000 plans quick); thorough: 40 positions per part and fault pairs (~83 000 plans).",
             "Crash detection by catch_unwind, watchdog and process exit status; no oracle on whether a damaged file should load.", "4 C25"),
 }
 
